@@ -11,16 +11,35 @@ From Kit Require Export Lib.Base.
 
 (* What a failing Read returns besides being non-nil and not the io.EOF value. *)
 Inductive fkind :=
-| FPlain      (* errors.New(...) *)
-| FWrapEOF    (* fmt.Errorf("...: %w", io.EOF) *)
-| FWrapUEOF   (* fmt.Errorf("...: %w", io.ErrUnexpectedEOF) *)
-| FUnexpEOF.  (* io.ErrUnexpectedEOF itself *)
+| FPlain          (* errors.New(...) *)
+| FWrapEOF        (* fmt.Errorf("...: %w", io.EOF) *)
+| FWrapUEOF       (* fmt.Errorf("...: %w", io.ErrUnexpectedEOF) *)
+| FUnexpEOF       (* io.ErrUnexpectedEOF itself *)
+(* the well-known sentinels a source reports when it is torn down under the reader *)
+| FClosedPipe     (* io.ErrClosedPipe *)
+| FWrapClosedPipe (* fmt.Errorf("...: %w", io.ErrClosedPipe) *)
+| FOsClosed       (* os.ErrClosed *)
+| FWrapOsClosed   (* fmt.Errorf("...: %w", os.ErrClosed), e.g. an *fs.PathError *)
+| FNetClosed      (* net.ErrClosed *)
+| FNoProgress     (* io.ErrNoProgress *)
+| FCtxCanceled    (* context.Canceled *)
+| FCtxDeadline    (* context.DeadlineExceeded *)
+| FBodyClosed     (* http.ErrBodyReadAfterClose *)
+| FWrapBodyClosed. (* fmt.Errorf("...: %w", http.ErrBodyReadAfterClose) *)
 
-Definition fkind_eqb (a b : fkind) : bool :=
-  match a, b with
-  | FPlain, FPlain | FWrapEOF, FWrapEOF | FWrapUEOF, FWrapUEOF | FUnexpEOF, FUnexpEOF => true
-  | _, _ => false
-  end.
+Definition fkind_code (k : fkind) : N :=
+  match k with
+  | FPlain => 0 | FWrapEOF => 1 | FWrapUEOF => 2 | FUnexpEOF => 3 | FClosedPipe => 4
+  | FWrapClosedPipe => 5 | FOsClosed => 6 | FWrapOsClosed => 7 | FNetClosed => 8
+  | FNoProgress => 9 | FCtxCanceled => 10 | FCtxDeadline => 11 | FBodyClosed => 12
+  | FWrapBodyClosed => 13
+  end%N.
+
+Definition fkind_eqb (a b : fkind) : bool := (fkind_code a =? fkind_code b)%N.
+
+(* errors.Is(err, http.ErrBodyReadAfterClose) for a failure of kind k *)
+Definition is_body_closed (k : fkind) : bool :=
+  match k with FBodyClosed | FWrapBodyClosed => true | _ => false end.
 
 (* errors.Is(err, io.EOF) for a failure of kind k *)
 Definition is_eof_kind (k : fkind) : bool :=
@@ -33,10 +52,15 @@ Definition is_eof_kind (k : fkind) : bool :=
    [DataEOF bs]    : like [Data bs] but the read that returns the last byte returns io.EOF with it;
    [Fail k]        : the read returns (0, error of kind k), and so does every later read;
    [DataFail bs k] : like [Data bs] but the read that returns the last byte returns the error of
-                     kind k with it; every later read returns (0, that error). *)
+                     kind k with it; every later read returns (0, that error);
+   [DataErr bs k]  : a TRANSIENT failure: like [DataFail bs k], but the error is reported once
+                     and later reads go on with the rest of the script (a reader that recovers:
+                     a timeout, a retried connection).  For the property the stream ends at its
+                     first failure all the same; what follows is only there to be seen if a
+                     wrapper swallows the error and reads on. *)
 Inductive rd :=
 | Data (bs : list N) | Zero | DataEOF (bs : list N) | Fail (k : fkind)
-| DataFail (bs : list N) (k : fkind).
+| DataFail (bs : list N) (k : fkind) | DataErr (bs : list N) (k : fkind).
 
 (* Error classes: never error texts.  [EEOF] is the io.EOF VALUE (err == io.EOF).
    [EPanic]: the call did not return - it panicked. *)
@@ -76,6 +100,9 @@ Definition read (want : nat) (r : reader) : list N * err * reader :=
     | DataFail bs k :: t =>
         if Nat.leb (length bs) want then (bs, EFail k, with_script r [Fail k])
         else (firstn want bs, ENil, with_script r (DataFail (skipn want bs) k :: t))
+    | DataErr bs k :: t =>
+        if Nat.leb (length bs) want then (bs, EFail k, with_script r t)
+        else (firstn want bs, ENil, with_script r (DataErr (skipn want bs) k :: t))
     end
   end.
 
@@ -88,7 +115,7 @@ Fixpoint data_of (s : list rd) : list N :=
   | Zero :: t => data_of t
   | DataEOF bs :: _ => bs
   | Fail _ :: _ => []
-  | DataFail bs _ :: _ => bs
+  | DataFail bs _ :: _ | DataErr bs _ :: _ => bs
   end.
 
 (* How the script ends: [EEOF], or [EFail k] for its first failure. *)
@@ -97,7 +124,7 @@ Fixpoint end_of (s : list rd) : err :=
   | [] => EEOF
   | Data _ :: t | Zero :: t => end_of t
   | DataEOF _ :: _ => EEOF
-  | Fail k :: _ | DataFail _ k :: _ => EFail k
+  | Fail k :: _ | DataFail _ k :: _ | DataErr _ k :: _ => EFail k
   end.
 
 (* The script ends in EOF (no failure before it). *)
@@ -112,7 +139,7 @@ Fixpoint script_fuel (s : list rd) : nat :=
   | Zero :: t => S (script_fuel t)
   | DataEOF bs :: _ => S (S (length bs))
   | Fail _ :: _ => 1
-  | DataFail bs _ :: _ => S (S (length bs))
+  | DataFail bs _ :: _ | DataErr bs _ :: _ => S (S (length bs))
   end.
 
 (* A consumer: the list of buffer sizes of its successive Read calls, then [dflt] forever. *)
@@ -148,10 +175,13 @@ Fixpoint consume {S : Type} (rdf : nat -> S -> list N * err * S)
 (* Facts                                                                                   *)
 
 Lemma script_fuel_pos s : 0 < script_fuel s.
-Proof. destruct s as [|[bs| |bs|k|bs k] t]; cbn [script_fuel]; lia. Qed.
+Proof. destruct s as [|[bs| |bs|k|bs k|bs k] t]; cbn [script_fuel]; lia. Qed.
 
 Lemma fkind_eqb_spec a b : fkind_eqb a b = true <-> a = b.
-Proof. destruct a, b; cbn [fkind_eqb]; split; intro H; try reflexivity; discriminate H. Qed.
+Proof.
+  destruct a, b; unfold fkind_eqb; cbn [fkind_code]; split; intro H;
+    try reflexivity; try discriminate H.
+Qed.
 
 Lemma err_eqb_spec a b : err_eqb a b = true <-> a = b.
 Proof.
@@ -168,23 +198,29 @@ Proof.
   intros <-. rewrite firstn_app, Nat.sub_diag, firstn_all. cbn [firstn]. apply app_nil_r.
 Qed.
 
+(* What of the stream is still to come after a read that returned [e]: nothing once it failed
+   (whatever a recovering reader would deliver afterwards). *)
+Definition data_after (e : err) (r' : reader) : list N :=
+  match e with EFail _ => [] | _ => data_of (script r') end.
+
 (* One call of [read] with a non-empty buffer. *)
 Lemma read_step want r bs e r' :
   0 < want -> read want r = (bs, e, r') ->
-  data_of (script r) = bs ++ data_of (script r') /\
+  data_of (script r) = bs ++ data_after e r' /\
   closes r' = closes r /\
   length bs <= want /\
   match e with
   | ENil => end_of (script r') = end_of (script r) /\
             script_fuel (script r') < script_fuel (script r)
   | EEOF => data_of (script r') = [] /\ end_of (script r) = EEOF
-  | EFail k => data_of (script r') = [] /\ end_of (script r) = EFail k
+  | EFail k => end_of (script r) = EFail k
   | _ => False
   end.
 Proof.
   intros Hw Hr. unfold read in Hr.
   destruct want as [|w]; [lia|]. remember (S w) as want eqn:Hwant. clear Hwant w.
-  destruct (script r) as [|[d| |d|k|d k] t] eqn:Hs.
+  unfold data_after.
+  destruct (script r) as [|[d| |d|k|d k|d k] t] eqn:Hs.
   - (* [] *)
     injection Hr as <- <- <-. rewrite Hs. cbn [data_of end_of app length]. repeat split; lia.
   - (* Data d *)
@@ -207,11 +243,22 @@ Proof.
       rewrite firstn_skipn, skipn_length.
       repeat split; try lia. apply firstn_le_length.
   - (* Fail k *)
-    injection Hr as <- <- <-. rewrite Hs. cbn [data_of end_of app length]. repeat split; lia.
+    injection Hr as <- <- <-. try rewrite Hs. cbn [data_of end_of app length].
+    repeat split; try lia; reflexivity.
   - (* DataFail d k *)
     destruct (Nat.leb (length d) want) eqn:Hle.
     + apply Nat.leb_le in Hle. injection Hr as <- <- <-.
-      cbn [with_script script closes data_of end_of]. rewrite app_nil_r. repeat split; lia.
+      cbn [with_script script closes data_of end_of]. rewrite app_nil_r.
+      repeat split; try lia; reflexivity.
+    + apply Nat.leb_gt in Hle. injection Hr as <- <- <-.
+      cbn [with_script script closes data_of end_of script_fuel].
+      rewrite firstn_skipn, skipn_length.
+      repeat split; try lia. apply firstn_le_length.
+  - (* DataErr d k *)
+    destruct (Nat.leb (length d) want) eqn:Hle.
+    + apply Nat.leb_le in Hle. injection Hr as <- <- <-.
+      cbn [with_script script closes data_of end_of]. rewrite app_nil_r.
+      repeat split; try lia; reflexivity.
     + apply Nat.leb_gt in Hle. injection Hr as <- <- <-.
       cbn [with_script script closes data_of end_of script_fuel].
       rewrite firstn_skipn, skipn_length.
